@@ -1,6 +1,7 @@
 package io
 
 import (
+	"fmt"
 	zerr "github.com/DemoHn/Zn/pkg/error"
 	"io"
 	"unicode/utf8"
@@ -26,8 +27,13 @@ func readRune(r io.Reader, remains []byte, b int) ([]rune, []byte, error) {
 	buf := append(remains, p[:t]...)
 	for len(buf) > 0 {
 		ru, size := utf8.DecodeRune(buf)
-		if ru == utf8.RuneError {
-			return rs, buf, nil
+		if ru == utf8.RuneError && size <= 1 {
+			// an incomplete (but so far valid) sequence at the end of the block:
+			// carry it to the next read - unless there is no next read
+			if err != io.EOF && !utf8.FullRune(buf) {
+				return rs, buf, nil
+			}
+			return rs, buf, zerr.ReadFileError(fmt.Errorf("invalid UTF-8 byte 0x%02X", buf[0]), " <buffer> ")
 		}
 
 		rs = append(rs, ru)
